@@ -134,7 +134,8 @@ def run_model(drv, case):
             for k in range(len(progs))]
     reqs = [su.model_request(case, rk, prog=pr, Frand=fr, old=True, row_stride=10 ** 9)
             for rk, pr, fr in zip(recs, progs, frs)]
-    for tag, fixed in (("seq", False), ("seq_fixed", True)):
+    # (the pre-repair variant of run(), SnowObj.run, is kept in Lean for the counter-example theorem only)
+    for tag, fixed in (("seq_fixed", True),):
         r = drv.call({"op": "snowingRuns", "dim": case["dim"], "fixed": fixed, "runs": reqs})
         if "error" in r:
             raise RuntimeError(r["error"])
